@@ -119,5 +119,43 @@ def main():
         print(prop, *s)
 
 
-if __name__ == "__main__":
+if __name__ == "__main__" and not (len(sys.argv) > 1
+                                   and sys.argv[1] == "--recheck"):
     main()
+
+
+def recheck():
+    """usage: tools/seed_eval.py --recheck  – re-run all claimed quick checks
+    on every confirmed seeded change in /verif/seeded (patched scratch
+    worktree) and update caught_by in its meta.json; print a summary."""
+    wt = pathlib.Path(f"/tmp/seedrecheck_{os.getpid()}")
+    sh(f"{VERIF}/tools/mkworktree.sh {wt}")
+    rows = []
+    try:
+        for d in sorted((VERIF / "seeded").iterdir()):
+            meta = json.loads((d / "meta.json").read_text())
+            sh(f"git -C {wt} checkout -- .")
+            ap = sh(f"git -C {wt} apply {d / 'patch.diff'}")
+            if ap.returncode:
+                rows.append((d.name, "patch does not apply on HEAD"))
+                continue
+            checks = run_checks(wt)
+            meta["checks_quick_on_patched_tree"] = checks
+            meta["caught_by"] = sorted(p for p, v in checks.items()
+                                       if v["rc"] == 1)
+            meta["analysis_error_in"] = sorted(p for p, v in checks.items()
+                                               if v["rc"] == 2)
+            meta["rechecked_at"] = time.strftime("%Y-%m-%d %H:%M:%S")
+            (d / "meta.json").write_text(json.dumps(meta, indent=1))
+            own = meta["property"] in meta["caught_by"]
+            rows.append((d.name, "caught by", meta["caught_by"],
+                         "own check" if own else "NOT by own check",
+                         "exit2", meta["analysis_error_in"]))
+    finally:
+        sh(f"git -C /repo worktree remove --force {wt}")
+    for r in rows:
+        print(*r)
+
+
+if __name__ == "__main__" and len(sys.argv) > 1 and sys.argv[1] == "--recheck":
+    recheck()
